@@ -1,6 +1,7 @@
 package gen
 
 import (
+	"fmt"
 	"math/big"
 	"strings"
 )
@@ -198,6 +199,59 @@ func LongRunStrings() []string {
 			if pos+1 < n {
 				l[pos+1], d[pos+1] = 'a', '0'
 				out = append(out, "1"+string(l), "1."+string(d))
+			}
+		}
+	}
+	return Dedup(out)
+}
+
+// ComponentLadders are parts with many components - 9 to 40 of them, more than any fixed-size scratch array of runs a
+// comparator might keep (8, 16, 32) - that differ from a base in exactly one component, at every position, or in two:
+// the k-th component decides, for every k.
+func ComponentLadders() []string {
+	var out []string
+	for _, n := range []int{9, 10, 12, 16, 17, 18, 24, 32, 33, 34, 40} {
+		for _, sep := range []string{".", "+", "a"} {
+			if sep != "." && n > 18 {
+				continue
+			}
+			base := make([]string, n)
+			for i := range base {
+				base[i] = fmt.Sprint(i%9 + 1)
+			}
+			out = append(out, strings.Join(base, sep))
+			for i := 0; i < n; i++ {
+				for _, alt := range []string{"0", "5", "10"} {
+					if alt == base[i] {
+						continue
+					}
+					v := append([]string{}, base...)
+					v[i] = alt
+					out = append(out, strings.Join(v, sep))
+				}
+				if i+1 < n && sep == "." {
+					v := append([]string{}, base...)
+					v[i], v[i+1] = "0", "99" // smaller here, larger one further on
+					out = append(out, strings.Join(v, sep))
+				}
+			}
+			out = append(out, strings.Join(base[:n-1], sep), strings.Join(base, sep)+sep+"0")
+		}
+	}
+	return Dedup(out)
+}
+
+// LongDigitRuns are parts whose deciding digit run has 1 to 65537 significant digits: lengths around every width a
+// length counter might have (2^7, 2^8, 2^9, 2^16) and pairs of lengths that differ by more than 127 and 255; each length
+// with a small and a large leading digit, with leading zeros, and followed by something.
+func LongDigitRuns() []string {
+	var out []string
+	for _, n := range []int{1, 2, 3, 19, 20, 50, 100, 127, 128, 129, 131, 200, 255, 256, 257, 300, 511, 512, 513, 1000, 65535, 65536, 65537} {
+		for _, lead := range []string{"1", "9"} {
+			run := lead + strings.Repeat("0", n-1)
+			out = append(out, "1."+run, "1."+run+"a")
+			if n < 1000 {
+				out = append(out, "1.000"+run, "1."+lead+strings.Repeat("9", n-1))
 			}
 		}
 	}
